@@ -255,7 +255,8 @@ pub fn decode_icc(stream: &[u8]) -> Result<Vec<u8>> {
                 .read_exact(std::slice::from_mut(&mut command))
                 .is_err()
             {
-                return Ok(out);
+                // End of the command stream: fall through to the final size check.
+                break;
             }
             let tagcode = command & 63;
             let tag = match tagcode {
